@@ -1605,6 +1605,7 @@ esl_sq_ReverseComplement(ESL_SQ *sq)
       if (sq->xr[x] != NULL) { free(sq->xr_tag[x]); free(sq->xr[x]); sq->xr_tag[x] = NULL; sq->xr[x] = NULL; }  
     free(sq->xr_tag); sq->xr_tag = NULL;
     free(sq->xr);     sq->xr     = NULL;
+    sq->nxr = 0;
   }   
   return status;
 
